@@ -35,4 +35,12 @@ K_CMSG = KaniUnit(
             ("kani.cmsg.timeout_touches_no_flags", "nonblocking_flag_clear_on_return", []),
             ("kani.cmsg.timeout_poll_waits", "timeout_poll_waits_requested_milliseconds", ["secs", "nanos"])],
 )
-KANI_UNITS = [K_LEDGER, K_CMSG]
+K_FFI = KaniUnit(
+    name="k_ffi", harness_file="kani/harness_unix.rs", append_to="src/platform/unix/mod.rs",
+    harnesses=["ffi_cmsg_arithmetic", "ffi_unix_cmsg_new", "ffi_is_socket", "ffi_new_sockaddr_un"],
+    props=["C18", "C04", "C08"],
+    id_props=[("kani.ffi.is_socket", ["C04", "C18"]), ("kani.ffi.sockaddr", ["C08", "C18"]), ("kani.ffi.sun_path", ["C08", "C18"]), ("kani.ffi.", ["C18"])],
+    safety_props=["C18"],
+    assumptions=["malloc/free as modelled by CBMC (allocation may fail); fstat returns ANY mode or fails; lengths range over all u32"],
+)
+KANI_UNITS = [K_LEDGER, K_CMSG, K_FFI]
